@@ -90,10 +90,16 @@ inductive Ev where
   | yielded (i : Nat)
   /-- the item future of `i` completed (or was cancelled by the timeout) -/
   | finished (i : Nat)
+  /-- `close(timeout)` was called (several calls may be outstanding) -/
   | closeCalled
+  /-- a `close()` returned `true` -/
   | closeReturned
   /-- the executor's close callback ran -/
   | callback
+  /-- the end signal was given from outside a graceful close: `cancel_all_streams()` -/
+  | cancelAll
+  /-- a bounded `close(timeout)` gave up and returned `false` (it has called `cancel_all_streams()` by then) -/
+  | closeExpired
   deriving DecidableEq, Repr
 
 structure St where
@@ -103,7 +109,12 @@ structure St where
   /-- events accepted before `closeCalled` -/
   beforeClose : List Nat := []
   closing  : Bool := false
-  /-- `cancel_all_streams` done (after the flush saw nothing pending) -/
+  /-- the end signal was given while events may still be pending (`cancelAll`, `closeExpired`) -/
+  signalled : Bool := false
+  /-- close calls that have not returned yet -/
+  closes   : Nat := 0
+  /-- the streams were told to end with nothing pending: either the flush of a close saw nothing pending and called
+      `cancel_all_streams`, or an earlier end signal is in effect and the queue ran empty -/
   cancelled : Bool := false
   /-- the `MutinyStream` was dropped (`running_streams_count` went to 0) -/
   dropped  : Bool := false
@@ -112,16 +123,17 @@ structure St where
   deriving DecidableEq, Repr
 
 /-- internal (unobservable) steps, fired as soon as they are enabled:
-    * the flush of `end_all_streams` finds nothing pending → `cancel_all_streams`;
+    * the flush of `end_all_streams` finds nothing pending → `cancel_all_streams` (or: an end signal given earlier is in effect
+      and the queue ran empty);
     * the cancelled stream answers end-of-stream once nothing is buffered; `for_each` (limit 1) then waits for the item
       future in flight before it returns and the stream is dropped, `for_each_concurrent` drops the source stream as soon
       as it ends — item futures may still be in flight -/
 def settle (c : Cfg) (s : St) : St :=
-  let s1 := if s.closing && !s.cancelled && s.pending.isEmpty then { s with cancelled := true } else s
+  let s1 := if (s.closing || s.signalled) && !s.cancelled && s.pending.isEmpty then { s with cancelled := true } else s
   if s1.cancelled && !s1.dropped && s1.pending.isEmpty && (c.limit > 1 || s1.inflight.isEmpty) then { s1 with dropped := true } else s1
 
 def stepEv (c : Cfg) (s : St) : Ev → Option St
-  | .accepted i => some (settle c { s with pending := s.pending ++ [i], beforeClose := if s.closing then s.beforeClose else s.beforeClose ++ [i] })
+  | .accepted i => some (settle c { s with pending := s.pending ++ [i], beforeClose := if s.closing || s.signalled then s.beforeClose else s.beforeClose ++ [i] })
   | .yielded i =>
       match s.pending with
       | j :: rest =>
@@ -132,8 +144,10 @@ def stepEv (c : Cfg) (s : St) : Ev → Option St
       | [] => none
   | .finished i =>
       if i ∈ s.inflight then some (settle c { s with inflight := s.inflight.erase i, finished := s.finished ++ [i] }) else none
-  | .closeCalled => if s.closing then none else some (settle c { s with closing := true })
-  | .closeReturned => if s.closing ∧ s.dropped ∧ !s.closed then some { s with closed := true } else none
+  | .closeCalled => some (settle c { s with closing := true, closes := s.closes + 1 })
+  | .closeReturned => if s.closes > 0 ∧ s.closing ∧ s.dropped then some { s with closed := true, closes := s.closes - 1 } else none
+  | .cancelAll => some (settle c { s with signalled := true })
+  | .closeExpired => if s.closes > 0 then some (settle c { s with signalled := true, closes := s.closes - 1 }) else none
   | .callback =>
       -- after `for_each*` completed: stream ended and nothing in flight
       if s.dropped ∧ s.inflight.isEmpty ∧ s.callbacks = 0 then some { s with callbacks := 1 } else none
